@@ -47,6 +47,32 @@ def task(item):
         out['lam'].append(lam)
         if not (lam > LAMBDA_MIN) or np.any(np.diag(A) <= 0):
             out['viols'].append(('not-positive-definite', {'cfg': cfgname, 'history': h, 'uniform': uniform, 'pw_exact': sw, 'lambda_min': lam, 'N': len(elems)}))
+        if uniform == 0 and h and len(elems) <= 64:
+            # the driver's lifecycle: ONE operator is created on the initial mesh and serves every later mesh of the adaptive loop
+            # (example.py creates SL before the loop; the estimator re-registers the elements each iteration): build the operator on
+            # the root mesh, assemble there, re-register, THEN apply the bisection history and assemble again with the same object
+            try:
+                m2 = build(cfg, ())
+                SLd = SingleLayerOperator(m2, pw_exact=sw)
+                e0 = list(m2.leaf_elements)
+                SLd.bilform_matrix(e0, e0)
+                SLd._init_elems(e0)
+                half = len(h) // 2
+                for k, (rect, ax) in enumerate(h):
+                    if k == half and half > 0:
+                        ek = list(m2.leaf_elements)
+                        SLd.bilform_matrix(ek, ek)
+                        SLd._init_elems(ek)
+                    m2.refine_axis(meshmc.find_leaf(m2, rect), ax)
+                e2 = list(m2.leaf_elements)
+                Ad = SLd.bilform_matrix(e2, e2)
+                lamd = lam_min(Ad) if np.all(np.diag(Ad) > 0) else float('-inf')
+                out['lifecycle'] = out.get('lifecycle', 0) + 1
+                if not lamd > LAMBDA_MIN:
+                    out['viols'].append(('not-positive-definite-with-operator-created-before-refinement',
+                                         {'cfg': cfgname, 'history': h, 'uniform': uniform, 'pw_exact': sw, 'lambda_min': lamd, 'lambda_min_fresh_operator': lam}))
+            except Exception as ex:
+                out['viols'].append(('raised-with-operator-created-before-refinement', {'cfg': cfgname, 'history': h, 'uniform': uniform, 'pw_exact': sw, 'exc': repr(ex)}))
         if len(elems) <= 40 or sw is False:
             # operator history: serve the child blocks twice (the second time with NEW virtual children, the first ones having been
             # freed) and re-assemble on the same operator; C13 is judged on what the operator returns AFTER that history
@@ -136,7 +162,7 @@ def run(ctx):
             if ctx.tier == 'thorough':
                 items.append((cfgname, root, 1))
     res = pmap(task, items, ctx.jobs, chunksize=1)
-    n = blocks = skipped = unstable = 0
+    n = blocks = skipped = unstable = lifecycle = 0
     lams = []
     maxN = 0
     for it, r in zip(items, res):
@@ -144,6 +170,7 @@ def run(ctx):
         blocks += r['blocks']
         skipped += r['skipped']
         unstable += r.get('unstable', 0)
+        lifecycle += r.get('lifecycle', 0)
         lams += r['lam']
         maxN = max(maxN, r['N'] if not r['skipped'] else 0)
         for tag, v in r['viols']:
@@ -152,7 +179,7 @@ def run(ctx):
         raise common.HarnessError('vacuous C13 run')
     cov = {'evaluations': n + blocks, 'distinct_nontrivial': n + blocks,
            'rule': 'one case = (leaf-set-distinct mesh, switch value) or (element child block, switch value); meshes with a leaf of aspect > 32 skipped',
-           'meshes_x_switch': n, 'child_blocks': blocks, 'meshes_skipped_by_aspect': skipped, 'observation_bitwise_unstable_results_along_operator_histories': unstable, 'per_graph': per,
+           'meshes_x_switch': n, 'driver_lifecycle_assemblies_operator_created_before_refinement': lifecycle, 'child_blocks': blocks, 'meshes_skipped_by_aspect': skipped, 'observation_bitwise_unstable_results_along_operator_histories': unstable, 'per_graph': per,
            'smallest_lambda_min_seen': min(lams), 'largest_mesh': maxN,
            'samples': [{'cfg': items[1][0], 'history': list(items[1][1])}, {'cfg': items[-1][0], 'history': list(items[-1][1]), 'uniform': items[-1][2]}],
            'exhaustive': True}
